@@ -221,3 +221,27 @@ Example C12_nonvacuous :
   /\ enter cfg_patched w_base 5000 (EstResp 10 404 [] None) = Raise 10
   /\ lp (life cfg_patched [LAlloc; LStreamOpen; LEnterOk; LPendAdd; LExit XCancelTask]) = LClosed.
 Proof. repeat split; reflexivity. Qed.
+
+(** ecb7629.  A request (or notification) of the server's own is never an
+    answer: with [c_answers_only] it is delivered at its place and the life of
+    the client's request goes on untouched - for EVERY state of the sender,
+    every id the message bears (also the one of the request in flight: ids are
+    per direction).  The member without the flag loses the answer of the POST
+    reply on exactly that history (witness below; found by C15's carrier
+    comparison on the unchanged tree, then repaired). *)
+Theorem C12_server_request_is_not_an_answer : forall c st m,
+  c_answers_only c = true -> kind_call (m_kind m) = true ->
+  step c st (ESse (Some m)) = (st, [(FromSse, m)]).
+Proof. exact server_call_untouched. Qed.
+Print Assumptions C12_server_request_is_not_an_answer.
+
+Example C12_server_request_witness :
+  let ping := Msg (Some w_rid) KReq 5 in
+  let evs := [ESend (CReq w_rid); ESse (Some ping); EPost (PStatus 200 (BMsg w_ans))] in
+  (* before the repair: the server's ping is taken for the answer, the real answer in the POST reply is never delivered *)
+  (map snd (run cfg_before_answers_only sinit evs) = [ping]
+   /\ count_terminals w_rid (run cfg_before_answers_only sinit evs) = 0%nat) /\
+  (* after it: both are delivered, in order, one terminal message *)
+  (map snd (run cfg_patched sinit evs) = [ping; w_ans] /\ count_terminals w_rid (run cfg_patched sinit evs) = 1%nat).
+Proof. cbv zeta. repeat split; vm_compute; reflexivity. Qed.
+
